@@ -209,8 +209,12 @@ impl BlockBuilder {
     }
 
     fn should_restart(&self) -> bool {
-        self.options.bytes_restart_interval <= self.bytes_since_restart
-            || self.options.key_value_pairs_restart_interval <= self.key_value_pairs_since_restart
+        // Never restart twice at the same offset:  a restart interval of zero would otherwise
+        // record the same restart point again and the cursor could not advance past it.
+        self.key_value_pairs_since_restart > 0
+            && (self.options.bytes_restart_interval <= self.bytes_since_restart
+                || self.options.key_value_pairs_restart_interval
+                    <= self.key_value_pairs_since_restart)
     }
 
     fn compute_key_frag<'a>(&mut self, key: &'a [u8]) -> (usize, &'a [u8]) {
